@@ -21,7 +21,8 @@ if [ "$REPO" != /repo ]; then
 fi
 BIN="/verif/bin/vcheck-$ID-$$"
 RACE=""
-case "$ID" in C09) RACE="-race";; esac
+# C09 always runs under the race detector; the history checks C08 and C20 (they mutate shared trees) do so in the thorough tier
+case "$ID:$MODE" in C09:*|C08:thorough|C20:thorough) RACE="-race";; esac
 if [ "${VERIF_RACE:-0}" = 1 ]; then RACE="-race"; fi
 trap 'rm -f "$BIN" $MODFILE "/verif/bin/go-$ID-$$.sum" "/verif/bin/api_gen-$ID-$$.go" "/verif/bin/overlay-$ID-$$.json"' EXIT INT TERM
 LOG="/verif/bin/build-$ID-$$.log"
